@@ -6,6 +6,7 @@ import RumaModel.Model.ScanCallMember
 import RumaModel.Model.ScanLang
 import RumaModel.Model.ScanTag
 import RumaModel.Model.ScanPlainReply
+import RumaModel.Model.ScanWordBytes
 import RumaModel.Model.IdsIp
 namespace Ruma.Driver.C17
 open Ruma Ruma.Proto Ruma.HttpHeaders
@@ -98,6 +99,12 @@ def handle (toks : List String) : String :=
     match parseH h with
     | some s => showOut showH (ScanTag.displayNameOf s)
     | none => "bad-op"
+  -- `_mode` (`e` = event_match on content.body, `d` = contains_display_name) selects the public entry
+  -- point on the implementation side; both end in `matches_word_impl(pattern, false)`
+  | ["c17.word", _mode, hs, hp] =>
+    match parseH hs, parseH hp with
+    | some s, some p => showOut (fun b => if b then "t" else "f") (ScanWordBytes.matchesWord s p)
+    | _, _ => "bad-op"
   | ["c17.plain", h] =>
     match parseH h with
     | some s => showOut showH (ScanPlainReply.removeFallback s)
